@@ -103,7 +103,7 @@ INF_VALUES = [("Þp", [2, 3, 5, 7, 11, 13, 17, 19, 23, 29, 31, 37, 41, 43, 47, 5
               ("ÞF", [1, 1, 2, 3, 5, 8, 13, 21, 34, 55, 89, 144, 233, 377, 610, 987]),
               ("Þ∞", list(range(1, 17))), ("⁽›1Ḟ", list(range(1, 17))), ("Þ!", [1, 1, 2, 6, 24, 120, 720, 5040])]
 INF_TAILS = ["20c", "50c", "7c", "5Ẏ", "3ȯ5Ẏ", "h", "5i", "ḣ_", "3ẇ5Ẏ", "8Ẏ∑", "3Ẏ", "10Ẏt", "2ẇh", "100c", "4Ẏ:", "12i_", "›5Ẏ", "d3Ẏ",
-             "6ẎṘ", "9Ẏ2ḭ"]
+             "6ẎṘ", "9Ẏ2ḭ", "0 9Ȧ", "2 0Ȧ", "1 7Ȧ_", "0 9Ȧ5Ẏ", "3 1Ȧh"]
 
 
 def take(v, n):
@@ -223,6 +223,14 @@ def main(tier):
             for tl in INF_TAILS:
                 cs.append(("prog", vtext, plain, cop, [tl]))
                 cs.append(("prog", vtext, plain, cop, [tl, "_", rng.choice(INF_TAILS)]))
+    # printing a kept (lazy) value and then running text with Vyxal-exec: what the text pushes goes on the stack,
+    # never into the printed value -- also when the stack and the value hold the same items (both empty, or equal)
+    for vtext, plain in [("0ɾ", []), ("0ʁ", []), ("⟨⟩›", []), ("3ɾ", [1, 2, 3]), ("⟨5|6⟩›", [6, 7])]:
+        for cop in (":", "var", "reg"):
+            for tl in (",`9`Ė", "_,`9`Ė", "…`9`Ė", ",`1 2`Ė", "_…`7`Ė_", ",`9`Ė`8`Ė", "_,`9`E"):
+                cs.append(("prog", vtext, plain, cop, [tl]))
+    for tl in ("1 2 3 ←a,`9`Ė", "←a…`9`Ė"):
+        cs.append(("prog", "3ɾ", [1, 2, 3], "var", [tl]))
     # variables: the variable is pushed twice in phase 1, so two references to the SAME object are retained
     for _ in range(nprog // 4):
         vtext, plain = rng.choice(VALUES)
